@@ -498,6 +498,24 @@ class SymArray:
                 best = j
         return QI(best)
 
+    @property
+    def iloc(self):
+        """A column of a default-index frame is handed out as the array itself: positional access is plain indexing."""
+        return self
+
+    def squeeze(self, axis=None):
+        """Drop every axis of length one (a length-1 array becomes 0-d, i.e. a scalar to every later use)."""
+        if self.ndim == 1:
+            return self.d[0] if len(self.d) == 1 else self
+        rows, cols = self.shape
+        if rows == 1 and cols == 1:
+            return self.d[0].d[0]
+        if rows == 1:
+            return SymArray(list(self.d[0].d), self.dtype_tag)
+        if cols == 1:
+            return SymArray([r.d[0] for r in self.d], self.dtype_tag)
+        return self
+
     def argmin(self, axis=None):
         return self._arg("lt")
 
@@ -827,8 +845,15 @@ class NP:
         a.d = [a._coerce(v)] * n
         return a
 
-    def _like(self, a, v, dtype):
+    def _like(self, a, v, dtype, shape=None, order=None, subok=None):
         tag = _norm_dtype(dtype) or (a.dtype_tag if isinstance(a, SymArray) else _dtype_of_scalar(a))
+        if shape is not None:
+            # numpy >= 1.17: the dtype of `a`, another shape
+            if hasattr(a, "__sx_array__"):
+                a = a.__sx_array__()
+            if not isinstance(a, SymArray) and isinstance(a, (list, tuple)):
+                tag = _norm_dtype(dtype) or asarray(a).dtype_tag
+            return self.full(shape, v, tag)
         if not isinstance(a, SymArray):
             if hasattr(a, "__sx_array__"):
                 return self._like(a.__sx_array__(), v, dtype)
@@ -838,17 +863,17 @@ class NP:
             return t._coerce(v)
         return self.full(a.shape, v, tag)
 
-    def empty_like(self, a, dtype=None):
-        return self._like(a, UNINIT, dtype)
+    def empty_like(self, a, dtype=None, order=None, subok=None, shape=None):
+        return self._like(a, UNINIT, dtype, shape)
 
-    def full_like(self, a, v, dtype=None):
-        return self._like(a, v, dtype)
+    def full_like(self, a, v, dtype=None, order=None, subok=None, shape=None):
+        return self._like(a, v, dtype, shape)
 
-    def ones_like(self, a, dtype=None):
-        return self._like(a, Q(1), dtype)
+    def ones_like(self, a, dtype=None, order=None, subok=None, shape=None):
+        return self._like(a, Q(1), dtype, shape)
 
-    def zeros_like(self, a, dtype=None):
-        return self._like(a, Q(0), dtype)
+    def zeros_like(self, a, dtype=None, order=None, subok=None, shape=None):
+        return self._like(a, Q(0), dtype, shape)
 
     def result_type(self, *xs):
         tags, weak = [], []
@@ -1151,6 +1176,22 @@ class NP:
 
     def flatnonzero(self, a):
         return self.nonzero(a)[0]
+
+    def atleast_1d(self, *xs):
+        out = []
+        for x in xs:
+            if hasattr(x, "__sx_plain__") or isinstance(x, SymArray):
+                out.append(x)
+            elif _is_scalar(x):
+                a = SymArray([], _dtype_of_scalar(x))
+                a.d = [a._coerce(x)]
+                out.append(a)
+            else:
+                out.append(asarray(x))
+        return out[0] if len(out) == 1 else out
+
+    def squeeze(self, a, axis=None):
+        return asarray(a).squeeze() if not _is_scalar(a) else a
 
     def argmax(self, a):
         return asarray(a).argmax()
